@@ -2,7 +2,7 @@
    Model: Model/Cluster.v = N instances of the timed group model (Model/Group.v) + an adversarial gossip channel for
    notification-log entries + crash / restart (with or without log state).
    Only statements; proofs in Proofs/ClusterProofs.v (on top of Proofs/GroupProofs.v). *)
-From AM Require Import Base.Prelude Model.Group Model.Cluster Proofs.GroupProofs Proofs.ClusterProofs Model.Position Proofs.PositionProofs.
+From AM Require Import Base.Prelude Model.Group Model.Cluster Proofs.GroupProofs Proofs.ClusterProofs Model.Position Proofs.PositionProofs Proofs.GroupLiveness Proofs.ClusterLiveness.
 
 (* ENTRIES COME FROM SENDS: in ANY cluster run — any crashes and restarts, any loss / delay / duplication /
    reordering / partition (the adversary picks which logged entries are merged where and when) — every log entry
@@ -92,6 +92,23 @@ Example c08_positions_nonvacuous :
   map (fun n => position n ["am-2"; "am-10"; "Am-1"; "am-1"]) ["am-2"; "am-10"; "Am-1"; "am-1"] = [3; 2; 0; 1]%nat.
 Proof. vm_compute. reflexivity. Qed.
 
+(* ---- AT LEAST ONE, composed: in ANY cluster run — any crashes and restarts of the OTHER instances, any loss, delay
+   or duplication of gossip (the channel carries authentic entries only) — if instance i stays up from the moment it is
+   handed alert x, x stays firing and unsuppressed on i, and integration k accepts i's deliveries, then once i's clock
+   has passed flush_by + flush timeout SOME instance has successfully sent integration k a notification listing x as
+   firing: i itself, or the instance whose log entry made i stay silent. ---- *)
+Theorem c08_at_least_one_notification cfg n t0 h0 c1 outs0 i s x k T t1 a h c' outs s' :
+  crun cfg (cinit cfg n t0) h0 = Some (c1, outs0) ->
+  crun cfg c1 ((i, t1, CLocal (EInsert a)) :: h) = Some (c', outs) ->
+  no_crash i h -> c_inst c1 !! i = Some s -> c_inst c' !! i = Some s' ->
+  a_id a = x -> firing_until T a -> fair x k T (flat_map (cproj i) h) ->
+  (forall g c, s_group s = Some g -> In c (gr_alerts g) -> a_id c = x -> a_upd c <= a_upd a) ->
+  (forall g fl f, s_group s = Some g -> gr_flight g = Some fl -> In f (fl_all fl) -> f_id f = x -> f_res f = false) ->
+  flush_by cfg s t1 a <= T -> (k < length (g_ints cfg))%nat -> 0 <= g_timeout cfg -> 0 <= g_wait cfg ->
+  flush_by cfg s t1 a + g_timeout cfg < s_clock s' ->
+  exists j r sent f, In (j, ONotify k r sent OK) (outs0 ++ outs) /\ In f sent /\ f_id f = x /\ f_res f = false.
+Proof. exact (cluster_at_least_one cfg n t0 h0 c1 outs0 i s x k T t1 a h c' outs s'). Qed.
+
 (* ---- non-vacuity: two instances; B (position 1) receives A's entry during its cluster wait and stays silent;
         then A crashes and B, partitioned, sends the repeat itself ---- *)
 Definition ex_cfg := mkG 30 300 1000 320 100000 [mkI true].
@@ -116,6 +133,36 @@ Example c08_nonvacuous :
   | None => False
   end.
 Proof. vm_compute. reflexivity. Qed.
+
+(* non-vacuity of [c08_at_least_one_notification] on the run above: instance 1 never crashes, is handed the alert at 0,
+   stays silent because instance 0's entry reaches it — the hypotheses hold and the witness is instance 0's send *)
+Example c08_at_least_one_nonvacuous :
+  let h0 := firstn 1 ex_run in let h := skipn 2 ex_run in let a := mkA 1 0 0 0 in
+  exists c1 outs0 c' outs s s',
+    crun ex_cfg (cinit ex_cfg 2 0) h0 = Some (c1, outs0) /\
+    crun ex_cfg c1 ((1%nat, 0, CLocal (EInsert a)) :: h) = Some (c', outs) /\
+    no_crash 1 h /\ c_inst c1 !! 1%nat = Some s /\ c_inst c' !! 1%nat = Some s' /\
+    fair 1 0%nat 2000 (flat_map (cproj 1) h) /\ flush_by ex_cfg s 0 a = 30 /\ 30 + g_timeout ex_cfg < s_clock s'.
+Proof.
+  cbv zeta. do 6 eexists.
+  split; [vm_compute; reflexivity|]. split; [vm_compute; reflexivity|].
+  split.
+  { intros t keep Hin. vm_compute in Hin. repeat (destruct Hin as [Hin|Hin]; [discriminate|]). destruct Hin. }
+  split; [vm_compute; reflexivity|]. split; [vm_compute; reflexivity|].
+  split.
+  { assert (E : flat_map (cproj 1) (skipn 2 ex_run) =
+      [(30, ETick 30 []); (33, ENflogMerge 0 ex_entry); (45, EDedup 0); (45, EFlushEnd);
+       (330, ETick 330 []); (345, EDedup 0); (345, EFlushEnd); (630, ETick 630 []); (645, EDedup 0); (645, EFlushEnd);
+       (930, ETick 930 []); (945, EDedup 0); (945, EFlushEnd); (1230, ETick 1230 []); (1245, EDedup 0);
+       (1246, EAttempt 0 OK); (1246, EFlushEnd)]) by (vm_compute; reflexivity).
+    rewrite E. unfold fair. repeat split.
+    - intros t b Hin. repeat (destruct Hin as [Hin|Hin]; [discriminate|]). destruct Hin.
+    - intros t tau sup Hin Hx. repeat (destruct Hin as [Hin|Hin]; [try discriminate; injection Hin as _ _ <-; destruct Hx|]). destruct Hin.
+    - intros t oc Hin. repeat (destruct Hin as [Hin|Hin]; [try discriminate; try (injection Hin as _ <-; reflexivity)|]). destruct Hin.
+    - intros t Hin. repeat (destruct Hin as [Hin|Hin]; [discriminate|]). destruct Hin. }
+  split; vm_compute; reflexivity.
+Qed.
+
 
 (* REFUTED as a blanket statement: "instances never send the same group state twice when gossip is healthy".
    The log keeps only the NEWEST entry per (group, integration). If the alert fires again during the later
@@ -158,3 +205,4 @@ Print Assumptions c08_delivered_entry_is_merged.
 Print Assumptions c08_positions_distinct.
 Print Assumptions c08_position_in_range.
 Print Assumptions c08_some_member_does_not_wait.
+Print Assumptions c08_at_least_one_notification.
